@@ -29,6 +29,10 @@ def run_crash(blocks, tag, timeout=1800, cmd="crash"):
                 results[cid].setdefault("copydiff", []).append(rest[9:])
             elif rest == "copychecked":
                 results[cid]["copychecked"] = True
+            elif rest.startswith("checkdiff "):
+                results[cid].setdefault("checkdiff", []).append(rest[10:])
+            elif rest == "checkchecked":
+                results[cid]["checkchecked"] = True
             elif rest == "copyrandomchecked":
                 results[cid]["copyrandomchecked"] = True
         os.remove(cf)
